@@ -177,12 +177,20 @@ def tlaps(module, needs=(), subst=None, timeout=900):
         # the fingerprint cache of the scratch directory).  A negative control (subst) is run once, with generous time-outs.
         out = ""
         for stretch in ((6,) if subst else (2, 8, 24)):
+            # tlapm in its own session: when it gives up on an obligation (or is killed) it can leave its back-end provers (z3,
+            # zenon, isabelle) running; the whole process group is killed as soon as tlapm has returned
+            import signal
+            proc = subprocess.Popen(["tlapm", "--threads", "4", "--stretch", str(stretch), module + ".tla"], cwd=d, stdout=subprocess.PIPE,
+                                    stderr=subprocess.STDOUT, text=True, start_new_session=True)
             try:
-                p = subprocess.run(["tlapm", "--threads", "4", "--stretch", str(stretch), module + ".tla"], cwd=d, stdout=subprocess.PIPE,
-                                   stderr=subprocess.STDOUT, text=True, timeout=timeout)
+                out, _ = proc.communicate(timeout=timeout)
             except subprocess.TimeoutExpired:
                 raise MachineryError("tlapm timed out on %s.tla" % module)
-            out = p.stdout
+            finally:
+                try:
+                    os.killpg(proc.pid, signal.SIGKILL)
+                except (ProcessLookupError, PermissionError):
+                    pass
             m = re.search(r"All (\d+) obligations? proved", out)
             if m:
                 return int(m.group(1)), out
